@@ -1,6 +1,7 @@
 package main
 
 import (
+	"context"
 	"encoding/json"
 	"errors"
 	"fmt"
@@ -76,6 +77,10 @@ func genC07(rng *rand.Rand, n int, emit func(Case), dist map[string]int) {
 		}
 		switch k {
 		case 0:
+			if rng.Intn(8) == 0 {
+				// the bare sentinel of a context the HANDLER cancelled: the client is still there and gets the generic 500
+				return context.Canceled, L(I(0), S(context.Canceled.Error()))
+			}
 			t := "plain " + marker()
 			markers = append(markers, t)
 			return errors.New(t), L(I(0), S(t))
@@ -84,6 +89,19 @@ func genC07(rng *rand.Rand, n int, emit func(Case), dist map[string]int) {
 			t := "wrapped " + marker()
 			markers = append(markers, t)
 			return fmt.Errorf(t+": %w", in), L(I(1), S(t), isx)
+		case 5:
+			if rng.Intn(2) == 0 {
+				// one of the package's shared error values, bare or with an internal error attached through WithInternal
+				// (which must hand out a copy: the shared value itself stays as it is for every later request)
+				g := []*echo.HTTPError{echo.ErrTeapot, echo.ErrForbidden, echo.ErrUnsupportedMediaType}[rng.Intn(3)]
+				msx := L(I(0), S(http.StatusText(g.Code)))
+				if rng.Intn(2) == 0 {
+					return g, L(I(2), I(g.Code), msx, L())
+				}
+				in, isx := genErr(depth + 1)
+				return g.WithInternal(in), L(I(2), I(g.Code), msx, L(isx))
+			}
+			fallthrough
 		default:
 			code := codes[rng.Intn(len(codes))]
 			m, msx := genMsg()
